@@ -304,7 +304,8 @@ def _static_api_only(ctx, f, seen=None):
     if f in R.public_static_methods:
         return True
     seen = seen or set()
-    if f.qualname in seen or f.is_public:
+    if f.qualname in seen or f.is_public or f.has_self:
+        # an instance method runs inside a build
         return False
     seen.add(f.qualname)
     callers = [cf for cf, _ in ctx.prog.callers().get(f.qualname, [])]
